@@ -129,24 +129,54 @@ type c18Op struct {
 
 var c18CbNames = []string{"collect", "stop@1", "stop@2", "err@1", "err@2"}
 
-func c18Alphabet(withReopen bool) []c18Op {
-	// op 0 ends the sequence (also keeps the engine's all-default self-check
-	// execution clear of x.Seen)
+// c18Alphabet builds the operation alphabet for a size class:
+//
+//	0 full:  5 keys x 5 values, 5 prefixes x 5 callbacks
+//	1 quick in-memory: like full with 3 values (JSON string, raw binary, empty)
+//	2 small (file-backed store, thorough): 3 keys, 2 values, 2 prefixes x 3 callbacks
+//	3 tiny  (file-backed store, quick): 2 keys, 2 values, 3 iterations, no Get
+//	  (every step is followed by a full read-back anyway)
+func c18Alphabet(withReopen bool, size int) []c18Op {
+	keys := []int{0, 1, 2, 3, 4}
+	vals := []int{0, 1, 2, 3, 4}
+	prefixes := []int{0, 1, 2, 3, 4}
+	cbs := []int{0, 1, 2, 3, 4}
+	gets := true
+	switch size {
+	case 1:
+		vals = []int{1, 3, 4}
+	case 2:
+		keys = []int{0, 1, 4}  // a, ab, b
+		vals = []int{0, 4}     // int7, binEmpty
+		prefixes = []int{0, 1} // "", a
+		cbs = []int{0, 1, 3}   // collect, stop@1, err@1
+	case 3:
+		keys = []int{0, 1} // a, ab
+		vals = []int{0, 4}
+		gets = false
+	}
+	// op 0 ends the sequence
 	ops := []c18Op{{kind: "stop"}}
-	for k := range c18Keys {
-		for v := range c18Values {
+	for _, k := range keys {
+		for _, v := range vals {
 			ops = append(ops, c18Op{kind: "put", key: k, val: v})
 		}
 	}
-	for k := range c18Keys {
-		ops = append(ops, c18Op{kind: "get", key: k})
+	for _, k := range keys {
+		if gets {
+			ops = append(ops, c18Op{kind: "get", key: k})
+		}
 	}
-	for k := range c18Keys {
+	for _, k := range keys {
 		ops = append(ops, c18Op{kind: "del", key: k})
 	}
-	for p := range c18Prefixes {
-		for cb := range c18CbNames {
-			ops = append(ops, c18Op{kind: "iter", prefix: p, cb: cb})
+	if size == 3 {
+		ops = append(ops, c18Op{kind: "iter", prefix: 0, cb: 0}, c18Op{kind: "iter", prefix: 1, cb: 1}, c18Op{kind: "iter", prefix: 1, cb: 3})
+	} else {
+		for _, p := range prefixes {
+			for _, cb := range cbs {
+				ops = append(ops, c18Op{kind: "iter", prefix: p, cb: cb})
+			}
 		}
 	}
 	if withReopen {
@@ -209,25 +239,66 @@ func c18Quote(keys []string) string {
 	return "[" + strings.Join(q, " ") + "]"
 }
 
-func TestVerifC18(t *testing.T) {
-	depth := mc.EnvInt("VERIF_C18_DEPTH", mc.Pick(5, 7))
+// TestVerifC18Mem explores the two in-memory implementations.
+func TestVerifC18Mem(t *testing.T) {
+	c18Run(t, "C18-statestore-mem-mock", []int{c18ImplLdbMem, c18ImplMock},
+		mc.EnvInt("VERIF_C18_SIZE", mc.Pick(1, 0)), mc.EnvInt("VERIF_C18_DEPTH", mc.Pick(4, 6)))
+}
+
+// TestVerifC18Disk explores the file-backed store including close + reopen.
+// Opening a file-backed goleveldb costs 12-25 ms (unconditional fsync of
+// CURRENT and the manifest), hence the smaller alphabets.
+func TestVerifC18Disk(t *testing.T) {
+	c18Run(t, "C18-statestore-disk-reopen", []int{c18ImplLdbDisk},
+		mc.EnvInt("VERIF_C18_DISK_SIZE", mc.Pick(3, 2)), mc.EnvInt("VERIF_C18_DISK_DEPTH", 4))
+}
+
+// TestVerifC18DiskDeep (thorough only): long sequences with several reopens
+// over the tiny alphabet.
+func TestVerifC18DiskDeep(t *testing.T) {
+	if !mc.Thorough() {
+		t.Skip("thorough tier only")
+	}
+	c18Run(t, "C18-statestore-disk-reopen-deep", []int{c18ImplLdbDisk}, 3, mc.EnvInt("VERIF_C18_DISK_DEEP_DEPTH", 7))
+}
+
+func c18Run(t *testing.T, harness string, impls []int, size int, depth int) {
 	mockRepeat := mc.EnvInt("VERIF_C18_MOCK_REPEAT", 300)
 	workRoot := os.Getenv("VERIF_WORK")
 	if workRoot == "" {
 		workRoot = os.TempDir()
 	}
 	logger := logging.New(io.Discard, 0)
-
-	mc.Run(t, mc.Config{ID: "C18", Name: "C18-statestore-opseq", MaxDev: -1, Params: map[string]interface{}{
-		"implementations": c18ImplNames, "keys": c18Keys, "prefixes": c18Prefixes, "values": c18ValueNames,
-		"callbacks": c18CbNames, "depth": depth, "ops_per_step": len(c18Alphabet(true)),
-		"mock_iterate_repetitions": mockRepeat,
-		"alphabet":                 "stop | Put(5 keys x 5 values) Get(5) Delete(5) Iterate(5 prefixes x 5 callbacks) Reopen(leveldb-disk only)"}},
-		func(x *mc.X) {
-			impl := x.Choose(c18NImpl)
-			if only := mc.EnvInt("VERIF_C18_ONLY", -1); only >= 0 && impl != only {
-				return
+	implNames := []string{}
+	for _, i := range impls {
+		implNames = append(implNames, c18ImplNames[i])
+	}
+	describe := func(ops []c18Op) []string {
+		var d []string
+		for _, o := range ops {
+			switch o.kind {
+			case "put":
+				d = append(d, fmt.Sprintf("Put(%q,%s)", c18Keys[o.key], c18ValueNames[o.val]))
+			case "get":
+				d = append(d, fmt.Sprintf("Get(%q)", c18Keys[o.key]))
+			case "del":
+				d = append(d, fmt.Sprintf("Delete(%q)", c18Keys[o.key]))
+			case "iter":
+				d = append(d, fmt.Sprintf("Iterate(%q,%s)", c18Prefixes[o.prefix], c18CbNames[o.cb]))
+			default:
+				d = append(d, o.kind)
 			}
+		}
+		return d
+	}
+	withReopen := impls[0] == c18ImplLdbDisk
+
+	mc.Run(t, mc.Config{ID: "C18", Name: harness, MaxDev: -1, Params: map[string]interface{}{
+		"implementations": implNames, "depth": depth, "ops_per_step": len(c18Alphabet(withReopen, size)),
+		"mock_iterate_repetitions": mockRepeat, "alphabet_size_class": size,
+		"alphabet":                 describe(c18Alphabet(withReopen, size))}},
+		func(x *mc.X) {
+			impl := impls[x.Choose(len(impls))]
 			name := c18ImplNames[impl]
 			var s storage.StateStorer
 			var dir string
@@ -251,7 +322,7 @@ func TestVerifC18(t *testing.T) {
 				}
 			}()
 			x.Logf("store %s", name)
-			ops := c18Alphabet(impl == c18ImplLdbDisk)
+			ops := c18Alphabet(impl == c18ImplLdbDisk, size)
 			fail := func(key, format string, a ...interface{}) {
 				x.Fail(name+":"+key, format, a...)
 			}
